@@ -77,6 +77,19 @@ def render_atom(n):
         return n
     return "'" + n.replace("'", "\\'") + "'"
 
+BINOPS = ("=", "\\=", "==", "\\==", "<", ">", "=<", ">=")
+UNOPS = ("-", "+")
+
+
+def _operand(t, vn):
+    """operands that are operator terms themselves are parenthesised (the grammar's `term BINOP term`
+    is ambiguous otherwise)"""
+    s = render_term(t, vn)
+    if t["t"] == "c" and ((t["n"] in BINOPS and len(t["a"]) == 2) or (t["n"] in UNOPS and len(t["a"]) == 1)):
+        return "(" + s + ")"
+    return s
+
+
 def render_term(t, varname=None):
     vn = varname or (lambda i: "_" if i >= 900 else "V%d" % i)
     k = t["t"]
@@ -96,8 +109,10 @@ def render_term(t, varname=None):
         if x["t"] == "v":
             return "[" + ",".join(items) + "|" + render_term(x, vn) + "]"
         raise ValueError("improper list not expressible in the grammar")
-    if t["n"] in ("=", "\\=") and len(t["a"]) == 2:
-        return "%s %s %s" % (render_term(t["a"][0], vn), t["n"], render_term(t["a"][1], vn))
+    if t["n"] in BINOPS and len(t["a"]) == 2:
+        return "%s %s %s" % (_operand(t["a"][0], vn), t["n"], _operand(t["a"][1], vn))
+    if t["n"] in UNOPS and len(t["a"]) == 1:
+        return "%s %s" % (t["n"], _operand(t["a"][0], vn))
     return render_atom(t["n"]) + "(" + ",".join(render_term(a, vn) for a in t["a"]) + ")"
 
 # precedence (looseness): ',' 1 < '->' 2 < ';' 3 ; all right-associative; '\+' prefix binds tightest
